@@ -114,6 +114,15 @@ func valueFor(k kind, mode string, salt int) []byte {
 			}
 			return []byte("{not json")
 		}
+	case "trailing":
+		// a well-formed value followed by further data is not a JSON document
+		if strings.HasPrefix(k.name, "json") {
+			v := valueFor(k, "ordinary", salt)
+			if salt%2 == 0 {
+				return append(append(v, ' '), valueFor(k, "ordinary", salt+1)...)
+			}
+			return append(v, []byte("x")...)
+		}
 	}
 	switch k.name {
 	case "jsonstruct":
@@ -178,7 +187,7 @@ func TestCheck(t *testing.T) {
 	rep := env.New("C20")
 	rep.Assumptions = []string{
 		"a typed nil struct pointer is not in the statement and is not in the alphabet",
-		"struct shapes: up to 2 (quick) / 3 (thorough) fields from 14 field kinds, with distinct or duplicate tag names, three prefixes, and ordinary / empty / one-field-invalid served values",
+		"struct shapes: up to 2 (quick) / 3 (thorough) fields from 14 field kinds, with distinct or duplicate tag names, three prefixes, and ordinary / empty / one-field-invalid / one-field-with-trailing-data served values",
 	}
 	maxFields := 2
 	if env.Thorough() {
@@ -208,6 +217,9 @@ func TestCheck(t *testing.T) {
 						for j, k := range cur {
 							if kinds[k].decoder {
 								shapes = append(shapes, shape{kinds: append([]int{}, cur...), names: names, prefix: prefix, mode: "invalid", bad: j})
+								if strings.HasPrefix(kinds[k].name, "json") {
+									shapes = append(shapes, shape{kinds: append([]int{}, cur...), names: names, prefix: prefix, mode: "trailing", bad: j})
+								}
 							}
 						}
 						if len(cur) >= 2 {
@@ -337,7 +349,7 @@ func runShape(s shape, via string) (msg, kind string, nontrivial bool) {
 			continue
 		}
 		mode := s.mode
-		if mode == "invalid" && i != s.bad {
+		if (mode == "invalid" || mode == "trailing") && i != s.bad {
 			mode = "ordinary"
 		}
 		name := path.Join(s.prefix, s.names[i])
